@@ -187,6 +187,10 @@ def check_pair(ctx, su: Setup, a: int, b: int):
             if rep is not None:
                 ctx.bad("C06.2", f"{tag}: the same child is listed {dict(seg.binders)[rep]} times", where,
                         f"loop variable {rep.name} (trip count {dict(seg.binders)[rep]}) does not enter the child id {e}")
+            elif isinstance(e, Lin) and codec.collision_witness(e, seg.binders, hints=[v for _, v in fields]) is not None:
+                p1, p2, val = codec.collision_witness(e, seg.binders, hints=[v for _, v in fields])
+                ctx.bad("C06.2", f"{tag}: the same child is listed twice", where,
+                        f"child id {e} evaluates to {val:#x} both at {p1} and at {p2}")
             else:
                 ctx.unk("C06.2", f"{tag}: children pairwise distinct", where,
                         f"loop variables {missing} are not recoverable from the decoded child (fields {[(k, str(v)) for k, v in fields]})")
